@@ -12,6 +12,7 @@ package fetcher
 
 import (
 	"context"
+	"slices"
 
 	"github.com/sourcenetwork/corekv"
 
@@ -448,6 +449,14 @@ func (f *indexFetcher) newInIndexIterator(
 	if err != nil {
 		return nil, NewErrInvalidInOperatorValue(err)
 	}
+	// a value listed twice must not yield its documents twice
+	uniqueInValues := make([]client.NormalValue, 0, len(inValues))
+	for _, inValue := range inValues {
+		if !slices.ContainsFunc(uniqueInValues, inValue.Equal) {
+			uniqueInValues = append(uniqueInValues, inValue)
+		}
+	}
+	inValues = uniqueInValues
 
 	// iterators for _in filter already iterate over keys with first field value
 	// matching the filter value, so we can skip the first matcher
